@@ -7,6 +7,8 @@ import (
 	"encoding/base64"
 	"encoding/json"
 	"fmt"
+	"github.com/wneessen/go-mail/log"
+	"io"
 	"strings"
 
 	mail "github.com/wneessen/go-mail"
@@ -42,6 +44,8 @@ type c14Case struct {
 	// conforming one that follows on a new connection
 	AbortAt  int `json:"abort_at,omitempty"`
 	AbortHow int `json:"abort_how,omitempty"`
+	// Debug: 1 = the client logs its dialogue (debug log into a discarding logger), 2 = additionally with auth-data logging
+	Debug int `json:"debug,omitempty"`
 }
 
 type c14Round struct {
@@ -210,6 +214,11 @@ func c14Exec(r *vf.Run, k c14Case) []finding {
 				var err error
 				cl, err = mail.NewClient(hx.Host, mail.WithDialContextFunc(rig.Dial), mail.WithHELO("client.example.test"), mail.WithTLSConfig(hx.ClientTLS(hx.Host)),
 					mail.WithTLSPolicy(mail.TLSMandatory), mail.WithSMTPAuth(types[k.Mech]), mail.WithUsername(k.User), mail.WithPassword(k.Pass))
+				if err == nil && k.Debug > 0 {
+					cl.SetLogger(log.New(io.Discard, log.LevelDebug))
+					cl.SetDebugLog(true)
+					cl.SetLogAuthData(k.Debug == 2)
+				}
 				if err != nil {
 					r.HarnessError("C14 NewClient: %v", err)
 					return nil
@@ -243,6 +252,13 @@ func c14Exec(r *vf.Run, k c14Case) []finding {
 				}
 				if sharedAuth == nil || !(k.Twice || len(k0.Rounds) > 0 || k0.AbortAt > 0) {
 					sharedAuth = c14Auth(k, nil)
+				}
+				if k.Debug > 0 {
+					cl.SetLogger(log.New(io.Discard, log.LevelDebug))
+					cl.SetDebugLog(true)
+					if k.Debug == 2 {
+						cl.SetLogAuthData()
+					}
 				}
 				authErr = cl.Auth(sharedAuth)
 				if authErr == nil {
@@ -364,7 +380,7 @@ func init() {
 	vf.Register(&vf.Check{
 		ID: "C14", Title: "SASL mechanisms interoperate with conforming servers",
 		Run: func(r *vf.Run) {
-			r.SetRule("user names and passwords/tokens: ALL strings of length 0..2 (thorough 0..3 for users) over {a B = , SP é 日 \\x01 %} plus a 300-byte value, plus users and passwords of 28 lengths between 63 and 16384 bytes (around the powers of two and the 512-octet command line), as (user, password) pairs with the right and with two kinds of wrong server-side credentials, for PLAIN, LOGIN, CRAM-MD5 (× challenge strings), XOAUTH2, SCRAM-SHA-1, SCRAM-SHA-256; SCRAM parameter sweeps (pseudo-random salts of length 1..20 and 64, all salts of length 1..3 over {00 01 '=' ff} and 16-byte salts framed by / made of those bytes, iteration counts {1,2,3,4,4095,4096,4097,10000,20000} (thorough: every i<=512 and every 97th up to 20000), server nonce suffixes incl. '=' and 24 printable chars, optional extension attributes after the iteration count); SCRAM-SHA-1/256-PLUS over real TLS 1.2 (tls-unique) and TLS 1.3 (tls-exporter) handshakes; two exchanges on one Auth object (nonce freshness); for every mechanism, a first exchange that the server ends at its 1st..4th AUTH step with {454, 535, disconnect} followed by a conforming exchange with the same Auth object; histories of 2 (thorough 3) exchanges with one Auth object, every combination of per-exchange server parameters over {2 salts} × {i=16,17,1,4096} × {server expects the right / another password}; all mechanisms through mail.Client over real TLS 1.2/1.3 with a re-dial on the same Client (two connections, fresh channel binding each); the verdict of reference verifiers written from the RFCs (self-tested on RFC 5802/7677/2195/4616/6070 vectors) must be 'accepted' exactly when credentials are equal; distinct by case tuple")
+			r.SetRule("user names and passwords/tokens: ALL strings of length 0..2 (thorough 0..3 for users) over {a B = , SP é 日 \\x01 %} plus a 300-byte value, plus users and passwords of 28 lengths between 63 and 16384 bytes (around the powers of two and the 512-octet command line), as (user, password) pairs with the right and with two kinds of wrong server-side credentials (a sample of them also while the client logs its dialogue, with and without auth-data logging), for PLAIN, LOGIN, CRAM-MD5 (× challenge strings), XOAUTH2, SCRAM-SHA-1, SCRAM-SHA-256; SCRAM parameter sweeps (pseudo-random salts of length 1..20 and 64, all salts of length 1..3 over {00 01 '=' ff} and 16-byte salts framed by / made of those bytes, iteration counts {1,2,3,4,4095,4096,4097,10000,20000} (thorough: every i<=512 and every 97th up to 20000), server nonce suffixes incl. '=' and 24 printable chars, optional extension attributes after the iteration count); SCRAM-SHA-1/256-PLUS over real TLS 1.2 (tls-unique) and TLS 1.3 (tls-exporter) handshakes; two exchanges on one Auth object (nonce freshness); for every mechanism, a first exchange that the server ends at its 1st..4th AUTH step with {454, 535, disconnect} followed by a conforming exchange with the same Auth object; histories of 2 (thorough 3) exchanges with one Auth object, every combination of per-exchange server parameters over {2 salts} × {i=16,17,1,4096} × {server expects the right / another password}; all mechanisms through mail.Client over real TLS 1.2/1.3 with a re-dial on the same Client (two connections, fresh channel binding each); the verdict of reference verifiers written from the RFCs (self-tested on RFC 5802/7677/2195/4616/6070 vectors) must be 'accepted' exactly when credentials are equal; distinct by case tuple")
 			r.Assume("admissible credentials per mechanism: PLAIN non-empty without NUL; XOAUTH2 without ^A; SCRAM non-empty without control characters (SASLprep/PRECIS prohibit them); Unicode restricted to strings on which SASLprep and PRECIS OpaqueString agree",
 				"an empty server nonce suffix is not exercised (the property is silent)")
 			alpha := []string{"a", "B", "=", ",", " ", "é", "日", "\x01", "%"}
@@ -387,6 +403,15 @@ func init() {
 			}
 			var cases []c14Case
 			for _, mech := range c14Mechs {
+				// the same exchanges while the client logs its dialogue (with and without auth-data logging)
+				for dbg := 1; dbg <= 2; dbg++ {
+					for _, u := range []string{"user", "us,er=1"} {
+						for _, pw := range []string{"pw", "p=,w d"} {
+							cases = append(cases, c14Case{Mech: mech, User: u, Pass: pw, SUser: u, SPass: pw, Debug: dbg},
+								c14Case{Mech: mech, User: u, Pass: pw, SUser: u, SPass: pw + "x", Debug: dbg})
+						}
+					}
+				}
 				// credential lengths around the powers of two, the 512-octet command line and beyond
 				for _, n := range []int{63, 64, 65, 127, 128, 129, 254, 255, 256, 257, 340, 355, 356, 372, 373, 400, 497, 498, 499, 511, 512, 513, 990, 1000, 1024, 2048, 4096, 16384} {
 					long := repeatTo("Long-credential-0123456789-", n)
